@@ -741,6 +741,11 @@ func (e *Engine) mayReachEvent(fn *ssa.Function) bool {
 					continue
 				}
 				for _, out := range node.Out {
+					// static edges only: interface and function-value callees are assumed not to
+					// fire ghost events unless an event is declared for the call shape itself
+					if out.Site == nil || out.Site.Common().StaticCallee() == nil {
+						continue
+					}
 					if e.reachEvent[out.Callee.Func] {
 						e.reachEvent[f] = true
 						changed = true
